@@ -251,7 +251,6 @@ def handleIO (op : String) (args : List String) : IO (Option String) := do
       stRef.set st'
       match o with
       | .accepted tx r => pure (some (encTx tx r))
-      | .downstreamPanic _ => pure (some "panic downstream sliceBounds")
       | .failed f => pure (some (encFail f))
   | "log" => do
     let st ← stRef.get
@@ -331,7 +330,6 @@ def handleIO (op : String) (args : List String) : IO (Option String) := do
           let unc := mapGet (configID t ty v) st.configs == some .touched
           match handleLeafSel concreteAbs st ⟨t, ty, v, sp, ch⟩ with
           | .ok .reached => pure (some (maybeIf unc "reached"))
-          | .ok .either => pure (some (maybeIf unc "either"))
           | .error f => pure (some (maybeIf unc (encFail f)))
       | _, _, _, _ => pure none
     | _ => pure none
